@@ -521,7 +521,15 @@ def run(tier, seed, drv):
     rng = rng_for(seed, 'c19')
     for i in range(n):
         sc = gen_scenario(rng, KINDS[i % len(KINDS)])
-        rec = run_impl(sc)
+        try:
+            rec = run_impl(sc)
+        except Exception as e:    # noqa
+            # (e.g. a constructor that refuses valid arguments: a finding about the implementation)
+            res.evaluations += 1
+            res.violation({'clause': 'scenario-setup-failed', 'kind': sc['kind']},
+                          '%s: the implementation failed outside of the simulation: %s: %s' % (sc['kind'], type(e).__name__, str(e)[:200]),
+                          {'scenario': sc})
+            continue
         res.evaluations += 1
         res.model_compared += 1
         res.count('kind:' + sc['kind'])
